@@ -35,6 +35,32 @@ pub fn tag_of(msg: &str) -> Option<String> {
     None
 }
 
+/// All property tags mentioned in an oracle message, in order of appearance. A
+/// linearizability verdict wraps the sequential oracle's message ("C07: no sequential
+/// execution explains ...: C14: ordered index ..."): it belongs to both.
+pub fn tags_of(msg: &str) -> Vec<String> {
+    let b = msg.as_bytes();
+    let mut v: Vec<String> = Vec::new();
+    for i in 0..b.len().saturating_sub(3) {
+        if b[i] == b'C' && b[i + 1].is_ascii_digit() && b[i + 2].is_ascii_digit() && b[i + 3] == b':' && (i == 0 || !b[i - 1].is_ascii_alphanumeric()) {
+            let t = msg[i..i + 3].to_string();
+            if !v.contains(&t) {
+                v.push(t);
+            }
+        }
+    }
+    v
+}
+
+/// Does the message report a violation of one of the accepted properties?
+pub fn accepted(accept: &[&str], msg: &str) -> bool {
+    let tags = tags_of(msg);
+    if tags.is_empty() {
+        return tag_of(msg).is_some_and(|t| accept.contains(&t.as_str()));
+    }
+    tags.iter().any(|t| accept.contains(&t.as_str()))
+}
+
 /// Run SEQ suites for one property. Violations are attributed by the tag the oracle
 /// put in the message; tags not in `tags` are recorded as foreign (they belong to
 /// another property's check, which runs the same oracle).
@@ -83,7 +109,7 @@ pub fn seq_check(prop: &str, tier: &str, suites: Vec<Suite>, tags: &[&str], budg
         }
         for (hist, msg) in r.violations {
             let tag = tag_of(&msg).unwrap_or_else(|| prop.to_string());
-            if tags.contains(&tag.as_str()) || tag == "C17" || tag == "C20" {
+            if accepted(tags, &msg) || tags.contains(&tag.as_str()) || tag == "C17" || tag == "C20" {
                 let sig = format!("{}|{}|{}", s.name, seq::describe_hist(s, &hist).join(";"), first_line(&msg));
                 report.violation(sig, format!("suite {} history {:?}\n{msg}", s.name, seq::describe_hist(s, &hist)), seq::replay_value(s, &hist));
             } else {
@@ -407,7 +433,13 @@ pub fn crash_suite_cmd(name: &str, depth: usize, seconds: f64) -> i32 {
 /// Debug aid: explore one program at a bound and print the statistics.
 pub fn sched_prog(name: &str, bound: u32, seconds: f64) -> i32 {
     let Some(p) = all_sched_programs().into_iter().find(|p| p.name == name) else {
-        eprintln!("program {name} not found");
+        eprintln!("program {name} not found; programs containing that text:");
+        let mut names: Vec<String> = all_sched_programs().into_iter().map(|p| p.name).filter(|n| n.contains(name)).collect();
+        names.sort();
+        names.dedup();
+        for n in names.iter().take(40) {
+            eprintln!("  {n}");
+        }
         return 2;
     };
     let found = std::sync::Mutex::new(Vec::new());
